@@ -49,7 +49,9 @@ for (const line of fs.readFileSync(input, "utf8").split("\n")) {
         return o;
       }))));
     }
-    res = { ok: true, header, fps: b.fps, fps_bits: bits(b.fps), frames_count: nframes, people: b._people === undefined ? null : b._people, frames };
+    const ids = [];
+    for (let i = 0; i < nframes; i++) ids.push(b.frames[i].people.map((person) => (person.id === undefined ? null : person.id)));
+    res = { ok: true, header, fps: b.fps, fps_bits: bits(b.fps), frames_count: nframes, people: b._people === undefined ? null : b._people, frames, ids };
   } catch (e) {
     res = { ok: false, error: String(e && e.message || e).slice(0, 200) };
   }
